@@ -100,6 +100,11 @@ func traversablePrefix(md protoreflect.MessageDescriptor, path string) string {
 			name = name[:i]
 		}
 		end += len(name)
+		if name == "" {
+			// "a..b": not a path (Validate reports it). fmutils skips empty segments and would carry on below a
+			// with b, past the checks made here; such a path selects nothing
+			return ""
+		}
 		fd := md.Fields().ByName(protoreflect.Name(name))
 		if fd == nil {
 			return path
